@@ -2,6 +2,7 @@ package main
 
 import (
 	"encoding/json"
+	"runtime/debug"
 	"flag"
 	"fmt"
 	"os"
@@ -184,7 +185,7 @@ func cmdCheck(args []string) int {
 		// carry clauses owned by this property)
 		for name, c := range m.DB.byFunc {
 			base := name
-			if i := strings.Index(base, "["); i > 0 {
+			if i := strings.LastIndex(base, "["); i > 0 && strings.Contains(base[i:], "=") {
 				base = base[:i]
 			}
 			if c.Trusted || m.Funcs[base] != nil {
@@ -220,6 +221,9 @@ func cmdCheck(args []string) int {
 			defer func() {
 				if x := recover(); x != nil {
 					r.EncErr = fmt.Sprint(x)
+					if os.Getenv("GOVC_DEBUG") != "" {
+						fmt.Println(string(debug.Stack()))
+					}
 				}
 			}()
 			r.Enc.run()
